@@ -29,7 +29,7 @@ void h_range_##TAG(void) { struct ST v; v.mMin = NT(); v.mMax = NT(); v.mErrorMe
   VERIF_ASSERT("C17", __verif_exc == 0 && (loaded || !r.has), "Range passes when the field is absent"); \
   VERIF_ASSERT("C17", !loaded || r.has == (x < v.mMin || x > v.mMax), "Range is inclusive: it fails exactly for values below the minimum or above the maximum"); \
   VERIF_ASSERT("C17", !r.has || MSG_OK(r, v.mErrorMessage), "a custom message is returned verbatim, otherwise a generated one"); VERIF_CANARY(); }
-H_RANGE(i32, int, nondet_int, Range_i32) H_RANGE(u64, unsigned long, nondet_ulong, Range_u64) H_RANGE(f64, double, nondet_double, Range_f64)
+H_RANGE(u8, unsigned char, nondet_uchar, Range_u8) H_RANGE(i16, short, nondet_short, Range_i16) H_RANGE(i32, int, nondet_int, Range_i32) H_RANGE(u64, unsigned long, nondet_ulong, Range_u64) H_RANGE(f64, double, nondet_double, Range_f64)
 #define H_SIZE(NAME, ST, FIELD, FAILS) \
 void h_##NAME(void) { struct ST v; v.FIELD = nondet_size_t(); v.mErrorMessage = nondet_bool() ? g_msg : (const char*)0; vstr_c8 s; s.size = nondet_size_t(); s.origin = 0; _Bool loaded = nondet_bool(); __verif_exc = 0; \
   vopt_vstr_c8 r = verif_inst_##NAME##_str__rk##ST##_rkvstr_c8_b(&v, &s, loaded); \
@@ -38,6 +38,6 @@ void h_##NAME(void) { struct ST v; v.FIELD = nondet_size_t(); v.mErrorMessage = 
   VERIF_ASSERT("C17", !r.has || MSG_OK(r, v.mErrorMessage), "a custom message is returned verbatim, otherwise a generated one"); VERIF_CANARY(); }
 H_SIZE(minsize, MinSize, mMinSize, s.size < v.mMinSize) H_SIZE(maxsize, MaxSize, mMaxSize, s.size > v.mMaxSize)
 /*@jobs
-for H in required range_i32 range_u64 range_f64 minsize maxsize:
+for H in required range_u8 range_i16 range_i32 range_u64 range_f64 minsize maxsize:
   job entry=h_{H} props=C17 mode=direct unwind=2
 @*/
